@@ -62,16 +62,16 @@ func init() {
 // is closed on that path (→ lean/Hy/Gen/Core.lean, obligations at the top of Props/C16.lean).
 func reconnectShapeFacts() map[string]any {
 	out := map[string]any{
-		"c16_shape_parsed":                     0,
-		"c16_rcClientAssignFuncs":              0,
-		"c16_assign_clientDo":                  0,
-		"c16_assign_reconnect":                 0,
-		"c16_clientDo_drop_closes":             0,
-		"c16_reconnect_closes_old":             0,
-		"c16_Close_sets_closed":                0,
-		"c16_Close_closes_client":              0,
-		"c16_count_incr_sites":                 0,
-		"c16_count_incr_in_reconnect_success":  0,
+		"c16_shape_parsed":                    0,
+		"c16_rcClientAssignFuncs":             0,
+		"c16_assign_clientDo":                 0,
+		"c16_assign_reconnect":                0,
+		"c16_clientDo_drop_closes":            0,
+		"c16_reconnect_closes_old":            0,
+		"c16_Close_sets_closed":               0,
+		"c16_Close_closes_client":             0,
+		"c16_count_incr_sites":                0,
+		"c16_count_incr_in_reconnect_success": 0,
 	}
 	// closed-error classification (compiled code, not source): what quic-go's OpenStream returns
 	// at the stream limit must pass through unwrapped; anything else becomes ClosedError
@@ -294,8 +294,10 @@ func (rcOutbound) TCP(reqAddr string) (net.Conn, error) {
 	}
 	return newBlockConn(), nil
 }
-func (rcOutbound) UDP(reqAddr string) (server.UDPConn, error) { return nil, errors.New("verif: no udp") }
-func (rcOutbound) CheckUDP(reqAddr string) error              { return nil }
+func (rcOutbound) UDP(reqAddr string) (server.UDPConn, error) {
+	return nil, errors.New("verif: no udp")
+}
+func (rcOutbound) CheckUDP(reqAddr string) error { return nil }
 
 func selfSignedCert() tls.Certificate {
 	key, err := ecdsa.GenerateKey(elliptic.P256(), rand.Reader)
